@@ -26,6 +26,10 @@ RULE += (". Widened (~6%): OBJECT instances carried by maps whose ELEMENT type i
          "against properties whose subschemas tell null from the member type (type, const, enum, false, not), additionalProperties "
          "(false / a schema on null), patternProperties, unevaluatedProperties, required, dependentRequired, min/maxProperties, propertyNames: "
          "a null member is PRESENT and is null whichever map carries it")
+RULE += (". Widened (~4%): the number ZERO twice or more in one array (bare or inside otherwise equal arrays / objects), each occurrence "
+         "independently float64 / float32 / named-float negative zero or +0, an integer kind, or json.Number 0 / -0 / -0.0 / 0.0 / 0e0, the first "
+         "representation being a decoding of a document that spells zeros 0 or -0.0; under uniqueItems (also below not / anyOf / items / "
+         "properties), const, enum, contains")
 ASSUMPTIONS = ["nil slices, nil maps and struct instances are outside the property's domain"]
 
 
@@ -258,9 +262,26 @@ def pointer_map_case(rng):
     return {"op": "validate", "args": {"schema": o, "ginsts": reprs}, "meta": {"nt": True, "ptrmap": True}}
 
 
+def zero_case(rng):
+    """0 and -0 in ONE array (gv.zero_array), under uniqueItems (at the root, below not / items / properties) or const / enum / contains."""
+    j, reprs = gv.zero_array(rng)
+    U = Obj([("uniqueItems", True)])
+    z = Num("0")
+    doc = rng.choice([U, U, U, U, Obj([("not", U)]), Obj([("uniqueItems", True), ("minItems", Num("2"))]),
+                      Obj([("anyOf", [U, Obj([("maxItems", Num("1"))])])]), Obj([("const", j)]), Obj([("enum", [[z], j])]),
+                      Obj([("contains", Obj([("const", z)])), ("minContains", Num("2"))]), Obj([("items", Obj([("const", j[0])]))])])
+    if rng.random() < 0.2:
+        doc = Obj([("items", doc)]) if rng.random() < 0.5 else Obj([("properties", Obj([("a", doc)]))])
+        reprs = [{"t": "[]any", "v": [d]} if doc.get("items") is not None else {"t": "map[string]any", "v": [["a", d]]} for d in reprs]
+    return {"op": "validate", "args": {"schema": doc, "ginsts": reprs}, "meta": {"nt": True, "zeros": True}}
+
+
 def gen(rng, tier, n):
     ops = []
     while len(ops) < n:
+        if rng.random() < 0.04:
+            ops.append(zero_case(rng))
+            continue
         if rng.random() < 0.06:
             o = pointer_map_case(rng)
             if o is not None:
